@@ -1,1 +1,367 @@
 // Kani contract harnesses for /repo/arrow-buffer/src/buffer/run.rs (child module: sees private items via super::)
+//
+// C09/C01: the checked constructor `RunEndBuffer::new` accepts only run-end buffers that are
+// well-formed in the sense of the Arrow format (Run-End Encoded layout): run ends are strictly
+// increasing, all strictly positive (they are 1-based cumulative lengths), and the last run end
+// covers the logical window: last >= logical_offset + logical_length.
+// C02: the logical->physical index mapping is the mathematical one (first run whose end exceeds
+// the absolute logical index), whatever the slicing.
+use super::*;
+
+/// Arrow format predicate, written independently of the code (plain loops, wide arithmetic).
+fn wf_run_ends<E: ArrowNativeType>(v: &[E], off: usize, len: usize) -> bool {
+    let zero = E::usize_as(0);
+    let mut i = 0;
+    while i < v.len() {
+        if !(v[i] > zero) {
+            return false;
+        }
+        if i + 1 < v.len() && !(v[i] < v[i + 1]) {
+            return false;
+        }
+        i += 1;
+    }
+    if v.is_empty() {
+        return off as u128 + len as u128 == 0;
+    }
+    // all values are positive here, so as_usize is the identity
+    v[v.len() - 1].as_usize() as u128 >= off as u128 + len as u128
+}
+/// the predicate restricted to what matters when the logical window is empty is discussed in the
+/// finding F4: for len == 0 the code checks only "strictly increasing".
+fn strictly_increasing<E: ArrowNativeType>(v: &[E]) -> bool {
+    let mut i = 0;
+    while i + 1 < v.len() {
+        if !(v[i] < v[i + 1]) {
+            return false;
+        }
+        i += 1;
+    }
+    true
+}
+/// model of the mapping: first k with run_ends[k] > abs (abs = absolute logical index)
+fn first_run_above<E: ArrowNativeType>(v: &[E], abs: usize) -> usize {
+    let mut k = 0;
+    while k < v.len() {
+        if v[k].as_usize() > abs {
+            return k;
+        }
+        k += 1;
+    }
+    v.len()
+}
+
+/// builds via the checked constructor; returns (accepted buffer)
+fn build<E: ArrowNativeType + kani::Arbitrary, const N: usize>(v: &[E; N], off: usize, len: usize) -> RunEndBuffer<E> {
+    RunEndBuffer::new(ScalarBuffer::<E>::from(v.to_vec()), off, len)
+}
+
+// Contract (C09): `RunEndBuffer::new(run_ends, offset, len)` for n <= 4 arbitrary run ends and
+// arbitrary usize offset / len: IF it returns THEN wf_run_ends(run_ends, offset, len) — strictly
+// increasing, all > 0, last >= offset + len (no wrap-around) — and the accessors report the inputs.
+// KNOWN FINDING F4 (fails on the unchanged tree): with len == 0 the constructor skips the `> 0`
+// and the coverage test, e.g. run ends [-5, 3] with offset 0, len 0 are accepted although the doc
+// comment lists "not strictly increasing values greater than zero" as a panic condition.
+fn run_end_new_case<E: ArrowNativeType + kani::Arbitrary, const N: usize, const NONEMPTY_ONLY: bool>() -> usize {
+    let v: [E; N] = kani::any();
+    let (off, len): (usize, usize) = (kani::any(), kani::any());
+    if NONEMPTY_ONLY {
+        kani::assume(len > 0);
+    }
+    let r = build(&v, off, len);
+    assert!(wf_run_ends(&v, off, len));
+    assert!(r.len() == len && r.offset() == off && r.is_empty() == (len == 0) && r.values().len() == N);
+    let i: usize = kani::any();
+    kani::assume(i < N);
+    assert!(r.values()[i] == v[i]);
+    len
+}
+fn run_end_new_upto4<E: ArrowNativeType + kani::Arbitrary, const NONEMPTY_ONLY: bool>() {
+    let n: u8 = kani::any();
+    let len = match n {
+        0 => run_end_new_case::<E, 0, NONEMPTY_ONLY>(),
+        1 => run_end_new_case::<E, 1, NONEMPTY_ONLY>(),
+        2 => run_end_new_case::<E, 2, NONEMPTY_ONLY>(),
+        3 => run_end_new_case::<E, 3, NONEMPTY_ONLY>(),
+        _ => run_end_new_case::<E, 4, NONEMPTY_ONLY>(),
+    };
+    kani::cover!(n == 4 && len > 0);
+    kani::cover!(n == 1 && len > 0);
+    kani::cover!(NONEMPTY_ONLY || (n == 0 && len == 0));
+}
+// @unit name=run_end_new_accept_implies_wf props=C09,C01 kind=bounded bound=n<=4_runs_i16 fns=RunEndBuffer<i16>::new mayreject=1 tier=quick mem=3 timeout=300
+#[kani::proof]
+#[kani::unwind(8)]
+fn run_end_new_accept_implies_wf() {
+    run_end_new_upto4::<i16, false>()
+}
+// Same contract restricted to a non-empty logical window (len > 0): holds on the unchanged tree.
+// @unit name=run_end_new_accept_implies_wf_nonempty_i16 props=C09,C01 kind=bounded bound=n<=4_runs_len>0 fns=RunEndBuffer<i16>::new mayreject=1 tier=quick mem=3 timeout=300
+#[kani::proof]
+#[kani::unwind(8)]
+fn run_end_new_accept_implies_wf_nonempty_i16() {
+    run_end_new_upto4::<i16, true>()
+}
+// @unit name=run_end_new_accept_implies_wf_nonempty_i32 props=C09,C01 kind=bounded bound=n<=4_runs_len>0 fns=RunEndBuffer<i32>::new mayreject=1 tier=quick mem=3 timeout=300
+#[kani::proof]
+#[kani::unwind(8)]
+fn run_end_new_accept_implies_wf_nonempty_i32() {
+    run_end_new_upto4::<i32, true>()
+}
+
+// Contract (C09), evidence for the F4 triage — what `new` DOES guarantee for an empty logical
+// window (len == 0) on the unchanged tree: IF it returns THEN the run ends are strictly increasing
+// (and nothing else: the cover shows an accepted input that violates the format predicate).
+fn run_end_zero_len_guarantee_case<E: ArrowNativeType + kani::Arbitrary, const N: usize>() -> bool {
+    let v: [E; N] = kani::any();
+    let off: usize = kani::any();
+    let r = build(&v, off, 0);
+    assert!(strictly_increasing(&v));
+    assert!(r.len() == 0 && r.is_empty() && r.offset() == off && r.values().len() == N);
+    !wf_run_ends(&v, off, 0) // witnesses the F4 gap
+}
+// @unit name=run_end_new_zero_len_guarantee props=C09 kind=bounded bound=n<=3_runs_len=0_i16 fns=RunEndBuffer<i16>::new mayreject=1 tier=quick mem=3 timeout=300
+#[kani::proof]
+#[kani::unwind(8)]
+fn run_end_new_zero_len_guarantee() {
+    let n: u8 = kani::any();
+    let gap = match n {
+        0 => run_end_zero_len_guarantee_case::<i16, 0>(),
+        1 => run_end_zero_len_guarantee_case::<i16, 1>(),
+        2 => run_end_zero_len_guarantee_case::<i16, 2>(),
+        _ => run_end_zero_len_guarantee_case::<i16, 3>(),
+    };
+    kani::cover!(gap && n == 2); // e.g. [-5, 3] is accepted with len 0
+    kani::cover!(!gap && n == 3);
+}
+
+// Contract (C09/C01), evidence for the F4 triage — NOT may-reject, so any panic / out-of-bounds in
+// the constructor or in an accessor is a violation: for ANY strictly increasing run ends (negative,
+// zero, not covering the offset: everything `new` lets through with len == 0) and any offset,
+// `new(run_ends, offset, 0)` accepts, and every safe accessor of the resulting buffer is total and
+// in bounds: values, max_value, get_start_physical_index = get_end_physical_index = 0,
+// slice(0, 0), sliced_values (empty), and get_physical_index(i) <= n for every i such that
+// offset + i does not overflow usize (the addition in get_physical_index is unchecked; that
+// precondition is independent of F4).
+fn run_end_zero_len_accessors_case<E: ArrowNativeType + kani::Arbitrary, const N: usize>() -> bool {
+    let v: [E; N] = kani::any();
+    let off: usize = kani::any();
+    kani::assume(strictly_increasing(&v));
+    let r = build(&v, off, 0);
+    assert!(r.len() == 0 && r.is_empty() && r.offset() == off && r.values().len() == N);
+    assert!(r.get_start_physical_index() == 0 && r.get_end_physical_index() == 0);
+    let _ = r.max_value();
+    assert!(r.sliced_values().count() == 0);
+    let s = r.slice(0, 0);
+    assert!(s.len() == 0 && s.offset() == off);
+    assert!(s.get_start_physical_index() == 0 && s.get_end_physical_index() == 0);
+    let i: usize = kani::any();
+    kani::assume(off.checked_add(i).is_some());
+    let p = r.get_physical_index(i);
+    assert!(p <= N);
+    !wf_run_ends(&v, off, 0)
+}
+// @unit name=run_end_zero_len_accessors_total props=C09,C01 kind=bounded bound=n<=3_runs_len=0_i16 fns=RunEndBuffer<i16>::new,RunEndBuffer::get_physical_index,RunEndBuffer::get_start_physical_index,RunEndBuffer::get_end_physical_index,RunEndBuffer::slice,RunEndBuffer::sliced_values,RunEndBuffer::max_value tier=quick mem=3 timeout=300
+#[kani::proof]
+#[kani::unwind(8)]
+fn run_end_zero_len_accessors_total() {
+    let n: u8 = kani::any();
+    let gap = match n {
+        0 => run_end_zero_len_accessors_case::<i16, 0>(),
+        1 => run_end_zero_len_accessors_case::<i16, 1>(),
+        2 => run_end_zero_len_accessors_case::<i16, 2>(),
+        _ => run_end_zero_len_accessors_case::<i16, 3>(),
+    };
+    kani::cover!(gap && n == 2);
+    kani::cover!(!gap && n == 3);
+}
+
+// Contract (C09): no over-rejection — every well-formed (run_ends, offset, len) is accepted.
+fn run_end_wf_accept_case<E: ArrowNativeType + kani::Arbitrary, const N: usize>() -> usize {
+    let v: [E; N] = kani::any();
+    let (off, len): (usize, usize) = (kani::any(), kani::any());
+    kani::assume(wf_run_ends(&v, off, len));
+    let r = build(&v, off, len);
+    assert!(r.len() == len && r.offset() == off);
+    len
+}
+// @unit name=run_end_new_wf_implies_accept_i16 props=C09 kind=bounded bound=n<=4_runs fns=RunEndBuffer<i16>::new tier=quick mem=3 timeout=300
+#[kani::proof]
+#[kani::unwind(8)]
+fn run_end_new_wf_implies_accept_i16() {
+    let n: u8 = kani::any();
+    let len = match n {
+        0 => run_end_wf_accept_case::<i16, 0>(),
+        1 => run_end_wf_accept_case::<i16, 1>(),
+        2 => run_end_wf_accept_case::<i16, 2>(),
+        3 => run_end_wf_accept_case::<i16, 3>(),
+        _ => run_end_wf_accept_case::<i16, 4>(),
+    };
+    kani::cover!(n == 4 && len == i16::MAX as usize);
+    kani::cover!(n == 0);
+    kani::cover!(n == 2 && len == 0);
+}
+// @unit name=run_end_new_wf_implies_accept_i32 props=C09 kind=bounded bound=n<=4_runs fns=RunEndBuffer<i32>::new tier=quick mem=3 timeout=300
+#[kani::proof]
+#[kani::unwind(8)]
+fn run_end_new_wf_implies_accept_i32() {
+    let n: u8 = kani::any();
+    let len = match n {
+        0 => run_end_wf_accept_case::<i32, 0>(),
+        1 => run_end_wf_accept_case::<i32, 1>(),
+        2 => run_end_wf_accept_case::<i32, 2>(),
+        3 => run_end_wf_accept_case::<i32, 3>(),
+        _ => run_end_wf_accept_case::<i32, 4>(),
+    };
+    kani::cover!(n == 4 && len > 1000);
+    kani::cover!(n == 0);
+}
+
+// Contract (C02/C01): on a well-formed buffer (N runs, arbitrary offset/len with len > 0):
+//   get_physical_index(i), i < len  = first k with run_ends[k] > offset + i, and is < N;
+//   get_start_physical_index()      = get_physical_index(0);
+//   get_end_physical_index()        = get_physical_index(len - 1).
+fn run_end_mapping_case<E: ArrowNativeType + kani::Arbitrary, const N: usize>() {
+    let v: [E; N] = kani::any();
+    let (off, len): (usize, usize) = (kani::any(), kani::any());
+    kani::assume(len > 0 && wf_run_ends(&v, off, len));
+    let r = build(&v, off, len);
+    let i: usize = kani::any();
+    kani::assume(i < len);
+    let p = r.get_physical_index(i);
+    assert!(p == first_run_above(&v, off + i) && p < N);
+    let start = r.get_start_physical_index();
+    let end = r.get_end_physical_index();
+    assert!(start == first_run_above(&v, off));
+    assert!(end == first_run_above(&v, off + len - 1));
+    assert!(start <= p && p <= end && end < N);
+    kani::cover!(start > 0 && end > start);
+    kani::cover!(p > start && p < end);
+    kani::cover!(off == 0 && end == N - 1 && v[N - 1].as_usize() == len); // unsliced fast paths
+    kani::cover!(off > 0 && v[N - 1].as_usize() > off + len);
+}
+macro_rules! run_end_mapping_unit {
+    ($name:ident, $e:ty, $n:expr) => {
+        #[kani::proof]
+        #[kani::unwind(8)]
+        fn $name() {
+            run_end_mapping_case::<$e, $n>()
+        }
+    };
+}
+// @unit name=run_end_mapping_i16_n4 props=C02,C01 kind=bounded bound=4_runs fns=RunEndBuffer::get_physical_index,RunEndBuffer::get_start_physical_index,RunEndBuffer::get_end_physical_index,RunEndBuffer::max_value tier=quick mem=3 timeout=400
+run_end_mapping_unit!(run_end_mapping_i16_n4, i16, 4);
+// @unit name=run_end_mapping_i16_n3 props=C02,C01 kind=bounded bound=3_runs fns=RunEndBuffer::get_physical_index,RunEndBuffer::get_start_physical_index,RunEndBuffer::get_end_physical_index,RunEndBuffer::max_value tier=quick mem=3 timeout=400
+run_end_mapping_unit!(run_end_mapping_i16_n3, i16, 3);
+// @unit name=run_end_mapping_i32_n4 props=C02,C01 kind=bounded bound=4_runs fns=RunEndBuffer::get_physical_index,RunEndBuffer::get_start_physical_index,RunEndBuffer::get_end_physical_index,RunEndBuffer::max_value tier=quick mem=3 timeout=400
+run_end_mapping_unit!(run_end_mapping_i32_n4, i32, 4);
+
+// Contract (C02/C01): `slice(o, l)` with o + l <= len on a well-formed buffer: offset' = offset + o,
+// len' = l, same run ends; the slice's logical->physical mapping is the parent's shifted by o
+// (get_physical_index / start / end agree with the model at absolute positions); an empty slice
+// reports start = end = 0; the parent is unchanged. In-range slices never panic.
+fn run_end_slice_case<E: ArrowNativeType + kani::Arbitrary, const N: usize>() {
+    let v: [E; N] = kani::any();
+    let (off, len): (usize, usize) = (kani::any(), kani::any());
+    kani::assume(len > 0 && wf_run_ends(&v, off, len));
+    let r = build(&v, off, len);
+    let (o, l): (usize, usize) = (kani::any(), kani::any());
+    kani::assume(o <= len && l <= len - o);
+    let s = r.slice(o, l);
+    assert!(s.offset() == off + o && s.len() == l && s.values().len() == N);
+    assert!(r.offset() == off && r.len() == len);
+    if l > 0 {
+        assert!(s.get_start_physical_index() == first_run_above(&v, off + o));
+        assert!(s.get_end_physical_index() == first_run_above(&v, off + o + l - 1));
+    } else {
+        assert!(s.get_start_physical_index() == 0 && s.get_end_physical_index() == 0);
+    }
+    kani::cover!(l == 0 && o > 0);
+    kani::cover!(l > 0 && o > 0 && s.get_start_physical_index() > 0);
+    let j: usize = kani::any();
+    kani::assume(j < l);
+    assert!(s.get_physical_index(j) == first_run_above(&v, off + o + j));
+}
+// @unit name=run_end_slice_mapping_i16_n3 props=C02,C01 kind=bounded bound=3_runs fns=RunEndBuffer::slice,RunEndBuffer::get_physical_index,RunEndBuffer::get_start_physical_index,RunEndBuffer::get_end_physical_index tier=quick mem=3 timeout=400
+#[kani::proof]
+#[kani::unwind(8)]
+fn run_end_slice_mapping_i16_n3() {
+    run_end_slice_case::<i16, 3>()
+}
+// @unit name=run_end_slice_mapping_i32_n4 props=C02,C01 kind=bounded bound=4_runs fns=RunEndBuffer::slice,RunEndBuffer::get_physical_index,RunEndBuffer::get_start_physical_index,RunEndBuffer::get_end_physical_index tier=quick mem=3 timeout=400
+#[kani::proof]
+#[kani::unwind(8)]
+fn run_end_slice_mapping_i32_n4() {
+    run_end_slice_case::<i32, 4>()
+}
+
+// Contract (C02/C01): `sliced_values()` on a well-formed buffer yields, for k = start..=end, the
+// value min(run_ends[k] - offset, len): positive, strictly increasing and ending exactly at len
+// (the run ends of the logical window, re-based at 0); an empty window yields nothing.
+fn run_end_sliced_values_case<E: ArrowNativeType + kani::Arbitrary, const N: usize>() {
+    let v: [E; N] = kani::any();
+    let (off, len): (usize, usize) = (kani::any(), kani::any());
+    kani::assume(wf_run_ends(&v, off, len));
+    let r = build(&v, off, len);
+    let mut it = r.sliced_values();
+    if len == 0 {
+        assert!(it.next().is_none());
+        kani::cover!(true);
+        return;
+    }
+    let start = first_run_above(&v, off);
+    let end = first_run_above(&v, off + len - 1);
+    let mut last = 0usize;
+    let mut k = 0;
+    while k < N {
+        if start <= k && k <= end {
+            let x = it.next();
+            assert!(x.is_some());
+            let want = v[k].as_usize() - off;
+            let want = if want < len { want } else { len };
+            assert!(x.unwrap().as_usize() == want && want > last);
+            last = want;
+        }
+        k += 1;
+    }
+    assert!(it.next().is_none() && last == len && end < N);
+    kani::cover!(N < 3 || (start > 0 && end > start));
+    kani::cover!(start == 0 && end == N - 1);
+}
+// @unit name=run_end_sliced_values_i16_n2 props=C02,C01 kind=bounded bound=2_runs fns=RunEndBuffer::sliced_values tier=quick mem=3 timeout=400
+#[kani::proof]
+#[kani::unwind(8)]
+fn run_end_sliced_values_i16_n2() {
+    run_end_sliced_values_case::<i16, 2>()
+}
+// @unit name=run_end_sliced_values_i16_n3 props=C02,C01 kind=bounded bound=3_runs fns=RunEndBuffer::sliced_values tier=thorough mem=3 timeout=900
+#[kani::proof]
+#[kani::unwind(8)]
+fn run_end_sliced_values_i16_n3() {
+    run_end_sliced_values_case::<i16, 3>()
+}
+// @unit name=run_end_sliced_values_i32_n4 props=C02,C01 kind=bounded bound=4_runs fns=RunEndBuffer::sliced_values tier=thorough mem=3 timeout=900
+#[kani::proof]
+#[kani::unwind(8)]
+fn run_end_sliced_values_i32_n4() {
+    run_end_sliced_values_case::<i32, 4>()
+}
+
+// Contract (C09/C01): `slice(o, l)` with ARBITRARY usize arguments on a well-formed buffer either
+// panics or returns a window inside the parent: o + l <= len without wrap-around (so the result is
+// again well-formed: last run end >= offset' + len').
+// @unit name=run_end_slice_rejects props=C09,C01 kind=bounded bound=3_runs fns=RunEndBuffer::slice mayreject=1 tier=quick mem=3 timeout=300
+#[kani::proof]
+#[kani::unwind(8)]
+fn run_end_slice_rejects() {
+    let v: [i32; 3] = kani::any();
+    let (off, len): (usize, usize) = (kani::any(), kani::any());
+    kani::assume(wf_run_ends(&v, off, len));
+    let r = build(&v, off, len);
+    let (o, l): (usize, usize) = (kani::any(), kani::any());
+    let s = r.slice(o, l);
+    assert!(o as u128 + l as u128 <= len as u128);
+    assert!(wf_run_ends(&v, s.offset(), s.len()));
+    kani::cover!(o + l == len && l > 0);
+    kani::cover!(l == 0 && o == len);
+}
